@@ -202,6 +202,11 @@ def c18_run(ctx):
         ctx.trace_validate("relay", "TestRelayTrace", None, None, n, alive_only=True)
         ctx.trace_validate("server", "TestServerTrace", None, None, n, alive_only=True)
         server_rt(ctx)
+    if not ctx.violations:   # "no data races": the real-time drivers once more, under the race detector
+        k = 1 if ctx.tier == "quick" else 6
+        ctx.race_drive("server-rt", "TestServerRT", 2 * k)
+        ctx.race_drive("clienttxn-rt", "TestClientTxnRT", 4 * k)
+        ctx.race_drive("clientconn-rt", "TestClientConnRT", k, env={"VERIF_RT_ROUNDS": 10})
 
 
 def c05_run(ctx):
